@@ -80,7 +80,7 @@ def specStep (L : Lib F T) (σ : Spec F) : Req → Spec F × Resp F T
          ⟨.ok, .seg (segParts L σ.next cd).1 (segParts L σ.next cd).2⟩)
   | .segmentBody json body opts =>
     match decodeSegment L json body opts with
-    | none => (σ, ⟨.error, .none⟩)
+    | none => (σ, ⟨.libErr, .none⟩)
     | some f =>
       match (svcSegment L (withOpts L f opts)).2 with
       | none => (σ, ⟨.libErr, .none⟩)
